@@ -114,3 +114,26 @@ def returned_values(fnode, where='?'):
     for p in Enumerator(where=where).paths(fnode.body):
         out.extend(PathValues(p).returns)
     return out
+
+
+def flag_resolved_guards(path):
+    """Guards of a path with *flag locals* replaced by the test they were assigned from earlier on the path
+    (`created = '' not in storage.buckets; ...; if created:` tests the existence).  Only names whose value is a comparison /
+    boolean expression are replaced, one level deep, so the other names keep the spelling the clauses key on."""
+    flags = {}
+    out = []
+    for it in path.items:
+        if it.kind == 'stmt' and isinstance(it.node, ast.Assign) and len(it.node.targets) == 1 and \
+                isinstance(it.node.targets[0], ast.Name):
+            nm = it.node.targets[0].id
+            if isinstance(it.node.value, (ast.Compare, ast.BoolOp)) or \
+                    (isinstance(it.node.value, ast.UnaryOp) and isinstance(it.node.value.op, ast.Not)):
+                flags[nm] = it.node.value
+            else:
+                flags.pop(nm, None)
+        elif it.kind == 'guard':
+            out.append((subst(it.node, flags) if flags else it.node, it.pol))
+        elif it.kind in ('loop', 'loop_exit', 'try_partial', 'with', 'handler', 'opaque_if') and it.node is not None:
+            for nm in _assigned_names(it.node):
+                flags.pop(nm, None)
+    return out
